@@ -560,26 +560,37 @@ def closure_syms(ctx, terms):
 
 
 def unfoldings(ctx, terms, fuel=1):
-    """Definitional facts for the recursive-spec applications in the terms."""
+    """Definitional facts for the spec-function applications in the terms.
+
+    Facts of uninterpreted spec functions (kind 'fact') are closed transitively;
+    unfoldings of recursive definitions (kind 'rec') are limited by ``fuel``.
+    """
     facts = []
     done = set()
     frontier = set()
     for t in terms:
         frontier |= t.apps
-    for _ in range(fuel):
+    depth = 0
+    while frontier and depth < 8:
         nxt = set()
         for key in sorted(frontier):
             if key in done:
                 continue
+            entry = ctx.unfold.get(key)
+            if entry is None:
+                done.add(key)
+                continue
+            kind, fact = entry
+            if kind == 'rec' and depth >= fuel:
+                continue
             done.add(key)
-            fact = ctx.unfold.get(key)
             if callable(fact):
                 fact = fact()
-                ctx.unfold[key] = fact
-            if fact is not None:
-                facts.append(fact)
-                nxt |= fact.apps
+                ctx.unfold[key] = (kind, fact)
+            facts.append(fact)
+            nxt |= fact.apps
         frontier = nxt - done
+        depth += 1
     return facts
 
 
